@@ -13,6 +13,11 @@ def merge(merge_expr: exp.Expression) -> list[exp.Expression]:
     return [_create_merge_candidates(merge_expr), *_mutations(merge_expr), _counts(merge_expr)]
 
 
+def _is_delete(then: object) -> bool:
+    # keywords are case-insensitive: sqlglot keeps THEN delete as a Var spelled the way it was written
+    return isinstance(then, exp.Var) and str(then.this).upper() == "DELETE"
+
+
 def _create_merge_candidates(merge_expr: exp.Merge) -> exp.Expression:
     """
     Given a merge statement, produce a temporary table that joins together the target and source tables.
@@ -68,7 +73,7 @@ def _create_merge_candidates(merge_expr: exp.Merge) -> exp.Expression:
             if isinstance(then, exp.Update):
                 case_when_clauses.append(f"WHEN {predicate} THEN {w_idx}")
                 values.update([str(c.expression) for c in then.expressions if isinstance(c.expression, exp.Column)])
-            elif isinstance(then, exp.Var) and then.args.get("this") == "DELETE":
+            elif _is_delete(then):
                 case_when_clauses.append(f"WHEN {predicate} THEN {w_idx}")
             else:
                 raise AssertionError(f"Expected 'Update' or 'Delete', got {then}")
@@ -116,7 +121,7 @@ def _mutations(merge_expr: exp.Merge) -> list[exp.Expression]:
         then = w.args.get("then")
 
         if matched:
-            if isinstance(then, exp.Var) and then.args.get("this") == "DELETE":
+            if _is_delete(then):
                 delete_sql = f"""
                     DELETE FROM {target_tbl}
                     USING merge_candidates AS {source_tbl}
@@ -182,7 +187,7 @@ def _counts(merge_expr: exp.Merge) -> exp.Expression:
         if matched:
             if isinstance(then, exp.Update):
                 operations["updated"].append(w_idx)
-            elif isinstance(then, exp.Var) and then.args.get("this") == "DELETE":
+            elif _is_delete(then):
                 operations["deleted"].append(w_idx)
             else:
                 raise AssertionError(f"Expected 'Update' or 'Delete', got {then}")
